@@ -52,6 +52,7 @@ def write_shards(recs, outdir, prefix='shard', max_bytes=12_000_000, min_shards=
 
 
 def run_tlc(module: str, cfg: str, env: dict, metadir: str, *, workers=1, timeout=1800, extra=(), heap='6g', simulate=None):
+    extra = list(extra)
     """one TLC run; returns (returncode, stdout, wall seconds)"""
     os.makedirs(metadir, exist_ok=True)
     cmd = ['java', '-XX:+UseParallelGC', f'-Xmx{heap}', '-Xss64m', '-cp', JAVA_CP, 'tlc2.TLC', '-config', os.path.join(SPEC, cfg),
